@@ -1216,7 +1216,7 @@ K("_twin_surrogates_r", "timeseries", props=("C15", "C20"), lists=("twins",),
   asserts={"surrogates[i, j, :] = embedding[k, :]": ["0<=k and k<N and 0<=j and j<N and 0<=i and i<n_surrogates"]},
   checks=("bounds", "narrow", "divzero"))
 K("_twin_surrogates_s", "timeseries", props=("C15", "C20"), lists3=("twins",),
-  requires=["N>=0", "n_surrogates>=0", "shape(original_data,0)>=n_surrogates", "shape(original_data,1)==N", "len(twins)>=n_surrogates",
+  requires=["N>=0", "n_surrogates>=0", "shape(original_data,0)>=n_surrogates", "shape(original_data,1)>=N", "len(twins)>=n_surrogates",
             "all(len2(twins,i)>=N for i in range(n_surrogates))",
             "all(0<=item3(twins,i,a,b) and item3(twins,i,a,b)<N and ilen3(twins,i,a)<=N for i in range(n_surrogates) for a in range(N) "
             "for b in range(ilen3(twins,i,a)))",
